@@ -992,7 +992,10 @@ func TestCheck(t *testing.T) {
 	if only == "" || only == "process-deposit" {
 		if !r.Search(t, "process-deposit/two-chains-one-cache", sub+1, r.N(160, 1600), func(rt *rapid.T) (any, *report.Failure) {
 			c := sim.GenConflictCase(rt)
-			return c, runDeposits(r, c)
+			r.Inflight(c)
+			f := runDeposits(r, c)
+			r.ClearInflight()
+			return c, f
 		}) {
 			return
 		}
@@ -1012,7 +1015,7 @@ func runDeposits(r *report.Run, c *sim.ConflictCase) *report.Failure {
 	res := sim.RunConflict(c)
 	r.Eval(int64(res.Evals))
 	switch {
-	case res.Sig == "conflict/diverge" || res.Sig == "conflict/panic" || res.Sig == "epc-stale:pubkey-cache":
+	case res.Sig == "conflict/diverge" || res.Sig == "conflict/panic" || res.Sig == "conflict/blocked" || res.Sig == "epc-stale:pubkey-cache":
 		return report.Failf("process-deposit/"+res.Sig, "%s", res.Msg)
 	case res.Sig != "":
 		r.Class("process-deposit:other-property(" + res.Sig + ")") // C08's subject
